@@ -55,6 +55,8 @@ def configs(tier):
         add(d=2, q=2, m=2, mode=mode, imputer='joint', storage='batch', labels=2)
         add(d=2, q=1, m=2, mode=mode, imputer='joint', storage='batch', q_call=2)
         add(d=2, q=2, m=2, mode=mode, imputer='joint', storage='batch', ignored=1)
+        for metric in ('MAE', 'MSE'):
+            add(d=2, q=2, m=2, mode=mode, imputer='joint', storage='batch', loss='river:' + metric)
         for lt in ('int', 'np'):
             add(d=2, q=2, m=2, mode=mode, imputer='joint', storage='batch', loss_type=lt)
             add(d=1, q=3, m=2, mode=mode, imputer='product', storage='batch', loss_type=lt)
